@@ -88,6 +88,24 @@ func flattenRef(prefix string, l []srcKV, out *[]flatKV) {
 	}
 }
 
+// c07nonASCII: the keys of the case also come from other scripts (their first bytes lie 128 or more above ASCII)
+var c07nonASCII bool
+
+// c07key names key i of the key space.
+func c07key(i int) string {
+	if c07nonASCII {
+		switch i % 4 {
+		case 1:
+			return fmt.Sprintf("\u65e5\u672ck%02d", i)
+		case 2:
+			return fmt.Sprintf("\u00e9k%02d", i)
+		case 3:
+			return fmt.Sprintf("\u0416k%02d", i)
+		}
+	}
+	return fmt.Sprintf("k%02d", i)
+}
+
 func genSrcList(r *gen.R, src string, n int, keyspace int, groups bool) []srcKV {
 	var out []srcKV
 	for i := 0; i < n; i++ {
@@ -95,7 +113,7 @@ func genSrcList(r *gen.R, src string, n int, keyspace int, groups bool) []srcKV 
 		if groups && r.P(12) {
 			g := srcKV{key: fmt.Sprintf("g%d", r.Intn(3)), isG: true, grp: []srcKV{}}
 			if r.P(25) {
-				g.key = fmt.Sprintf("k%02d", r.Intn(keyspace)) // a key that plain attributes use too: one key, one (the last) value
+				g.key = c07key(r.Intn(keyspace)) // a key that plain attributes use too: one key, one (the last) value
 			}
 			m := r.Intn(5)
 			for j := 0; j < m; j++ {
@@ -108,7 +126,7 @@ func genSrcList(r *gen.R, src string, n int, keyspace int, groups bool) []srcKV 
 			out = append(out, srcKV{key: fmt.Sprintf("g%d", r.Intn(3)), src: tag}) // a plain attribute under a key that groups use too
 			continue
 		}
-		out = append(out, srcKV{key: fmt.Sprintf("k%02d", r.Intn(keyspace)), src: tag})
+		out = append(out, srcKV{key: c07key(r.Intn(keyspace)), src: tag})
 	}
 	return out
 }
@@ -122,6 +140,10 @@ func c07main(c *Ctx) {
 		depth := r.Range(1, 4)
 		keyspace := gen.Pick(r, []int{4, 8, 16, 40})
 		groups := r.P(60)
+		c07nonASCII = r.P(15)
+		if c07nonASCII {
+			c.R.Add("cases_with_keys_from_other_scripts", 1)
+		}
 		restore := withFlags(0, slog.Lcaller)
 		defer restore()
 		if inherit {
@@ -143,7 +165,15 @@ func c07main(c *Ctx) {
 		parentCtxKeys := false
 		for d := 1; d < depth; d++ {
 			ch := chain[d-1].New(fmt.Sprintf("c%d", d))
-			if d == depth-1 && r.P(20) {
+			if r.P(12) {
+				// a chain link made with WithSkip: a child like any other (its own attributes and context keys are its own)
+				ch = chain[d-1].WithSkip(1)
+				c.R.Add("chain_links_made_with_WithSkip", 1)
+				if d == depth-1 && r.Bool() {
+					parentCtxKeys = true
+					chain[d-1].SetContextKeys("pk0", ctxKeyT{"pk1"})
+				}
+			} else if d == depth-1 && r.P(20) {
 				// the logger is derived with WithContextKeys from a parent that has context keys of its own (and the
 				// context will hold values under them): the child looks up ITS keys
 				parentCtxKeys = true
@@ -237,7 +267,7 @@ func c07main(c *Ctx) {
 		}
 		var regs []regKey
 		for i := 0; i < nkeys; i++ {
-			name := fmt.Sprintf("k%02d", r.Intn(keyspace))
+			name := c07key(r.Intn(keyspace))
 			if r.P(30) {
 				name = fmt.Sprintf("ctx%d", i)
 			}
@@ -306,6 +336,18 @@ func c07main(c *Ctx) {
 				args = append(args, kv.attr())
 			}
 		}
+		// the record may go through a WithSkip child derived NOW from the logger (which has its attributes and context
+		// keys by now): one more chain link, with no attributes and no context keys of its own
+		if r.P(10) {
+			sk := lg.WithSkip(1)
+			sk.SetWriter(w).SetErrorWriter(w)
+			chain = append(chain, sk)
+			own = append(own, nil)
+			depth++
+			lg = sk
+			ctxList = nil
+			c.R.Add("records_through_a_WithSkip_child_of_the_configured_logger", 1)
+		}
 		// reference
 		var all []srcKV
 		all = append(all, ctxList...)
@@ -370,6 +412,45 @@ func c07main(c *Ctx) {
 				c.R.Violation(idx, v.clause, "C07/"+v.clause+"/"+v.feature, v.detail+"\npayload: "+q(clip(string(evs[0].Data), 1200)), desc)
 			}
 			return
+		}
+		// the same logger again, this time WITHOUT arguments of the call: what the first record's arguments were is no
+		// source of this record (the logger's own bindings are what they were)
+		if r.P(50) {
+			var all0 []srcKV
+			all0 = append(all0, ctxList...)
+			if inherit {
+				for d := 0; d < depth-1; d++ {
+					all0 = append(all0, own[d]...)
+				}
+			}
+			all0 = append(all0, own[depth-1]...)
+			var want0 []flatKV
+			flattenRef("", mergeRef(all0), &want0)
+			evs0 := capture(log, func() {
+				if nilCtx {
+					lg.InfoContext(nil, "probe") //nolint:staticcheck
+				} else {
+					lg.InfoContext(ctx, "probe")
+				}
+			})
+			c.R.Add("records_without_call_arguments_after_one_with", 1)
+			if len(evs0) != 1 {
+				c.R.Violation(idx, "one-write", "C07/one-write", fmt.Sprintf("expected one Write, saw %s", fmtEvents(evs0)), desc)
+				return
+			}
+			d0, err := decodeRecord(f, evs0[0].Data, true, false)
+			if err != nil {
+				c.R.Violation(idx, "decode", "C07/decode/"+f.String(), err.Error()+"\npayload: "+q(clip(string(evs0[0].Data), 1200)), desc)
+				return
+			}
+			if !(noLattrs && len(d0.Attrs) == 0) {
+				if vs := c07compare(d0.Attrs, want0, all0); len(vs) > 0 {
+					for _, v := range vs {
+						c.R.Violation(idx, v.clause, "C07/"+v.clause+"/"+v.feature+"/after-a-call-with-arguments", v.detail+"\npayload: "+q(clip(string(evs0[0].Data), 1200)), desc)
+					}
+					return
+				}
+			}
 		}
 		// second round: after the logger has logged once, some logger of the chain (often an ancestor two or
 		// more levels up) gets further attributes; the next record must show them (no per-logger caching of
